@@ -105,3 +105,30 @@ MUTANTS += [
          old='return decoder->callback(buf, BLOCK_READ_SIZE, decoder->callback_data);',
          new='return decoder->callback(buf, BLOCK_READ_SIZE + 16, decoder->callback_data);'),
 ]
+MUTANTS += [
+    # ---- C05 ----
+    dict(id='c05-uid-gid-swapped', props=['C05'], file='lib/ext_header.c',
+         old='\theader->unix_gid = lha_decode_uint16(data);\n\theader->unix_uid = lha_decode_uint16(data + 2);',
+         new='\theader->unix_uid = lha_decode_uint16(data);\n\theader->unix_gid = lha_decode_uint16(data + 2);'),
+    dict(id='c05-l1-size-not-reduced', props=['C05'], file='lib/lha_file_header.c',
+         old='\t\t(*header)->compressed_length -= ext_header_len;', new='\t\t(*header)->compressed_length -= 0;'),
+    dict(id='c05-allcaps-for-unix', props=['C05'], file='lib/lha_file_header.c',
+         old='\t || header->os_type == LHA_OS_TYPE_OS2) {\n\t\tfix_msdos_allcaps(header);', new='\t || header->os_type == LHA_OS_TYPE_OS2 || header->os_type == LHA_OS_TYPE_UNIX) {\n\t\tfix_msdos_allcaps(header);'),
+    dict(id='c05-os9-perm-bit', props=['C05'], file='lib/lha_file_header.c',
+         old='\tpw = (header->os9_perms & 0x10) != 0;', new='\tpw = (header->os9_perms & 0x20) != 0;'),
+    dict(id='c05-l0-unix-area-perms-offset', props=['C05'], file='lib/lha_file_header.c',
+         old='\theader->unix_perms = lha_decode_uint16(data + data_len - 6);', new='\theader->unix_perms = lha_decode_uint16(data + 6);'),
+    dict(id='c05-dos-month', props=['C05'], file='lib/lha_file_header.c',
+         old='\tdatetime.tm_mon = ((raw >> 21) & 0xf) - 1;', new='\tdatetime.tm_mon = ((raw >> 21) & 0xf);'),
+    dict(id='c05-win-time-order', props=['C05'], file='lib/ext_header.c',
+         old='\theader->win_modification_time = lha_decode_uint64(data + 8);\n\theader->win_access_time = lha_decode_uint64(data + 16);',
+         new='\theader->win_access_time = lha_decode_uint64(data + 8);\n\theader->win_modification_time = lha_decode_uint64(data + 16);'),
+    dict(id='c05-osk-quirk-dropped', props=['C05'], file='lib/lha_file_header.c',
+         old='\tif ((*header)->os_type == LHA_OS_TYPE_OS9_68K) {\n\t\tif (!extend_raw_data(header, stream, 2)) {', new='\tif ((*header)->os_type == 0x7e) {\n\t\tif (!extend_raw_data(header, stream, 2)) {'),
+    dict(id='c05-path-ext-last-wins-dropped', props=['C05'], file='lib/ext_header.c',
+         old='\tfree(header->path);\n\theader->path = (char *) new_path;', new='\tif (header->path != NULL) { free(new_path); return 1; }\n\theader->path = (char *) new_path;'),
+    dict(id='c05-lhark-rename-any-level', props=['C05'], file='lib/lha_file_header.c',
+         old='\tif (header->header_level == 1 && header->os_type == LHA_OS_TYPE_LHARK', new='\tif (header->header_level >= 1 && header->os_type == LHA_OS_TYPE_LHARK'),
+    dict(id='c05-symlink-split-first-bar', props=['C05'], file='lib/lha_file_header.c',
+         old="\tp = strchr(fullpath, '|');", new="\tp = strrchr(fullpath, '|');"),
+]
